@@ -31,6 +31,7 @@ import (
 	"verif/gen/corrupt"
 	"verif/gen/sqlgen"
 	"verif/internal/astdump"
+	"verif/internal/cctx"
 	"verif/internal/hx"
 )
 
@@ -211,6 +212,29 @@ var ops = []op{
 		}
 		return goerrors.SuggestKeyword(w)
 	}, true},
+	{"parse_cancelled_midway", func(in string) string {
+		// a multi-statement script whose context turns done at the third poll: the error is
+		// deterministic, and whatever the cancelled call put back into the pools must not be
+		// shared by later calls
+		ctx := cctx.New(1+len(in)%9, context.Canceled) // the poll index varies with the input: inside an expression, at a statement boundary, ...
+		t, err := gosqlx.ParseWithContext(ctx, in+" ; "+in+" ; "+in)
+		if err != nil {
+			return errText(err)
+		}
+		defer ast.ReleaseAST(t)
+		return astdump.Dump(t.Statements)
+	}, true},
+	{"suggest_misspelt", func(in string) string {
+		// a word that is not in the suggestion cache yet: the first word of the input, mangled
+		w := strings.ToUpper(in)
+		if i := strings.IndexAny(w, " \n\t("); i > 0 {
+			w = w[:i]
+		}
+		if len(w) > 3 {
+			w = w[:2] + w[3:]
+		}
+		return goerrors.SuggestKeyword(w) + "|" + goerrors.SuggestKeyword(w+"X")
+	}, true},
 	{"metrics.GetStats", func(in string) string {
 		s := metrics.GetStats()
 		_ = s.ErrorsByType
@@ -330,6 +354,7 @@ func oracleRound(c RoundCase) error {
 	oversubscribed := len(c.Plan) >= runtime.GOMAXPROCS(0) // a spinner per processor starves the releasing goroutine under -race
 	for round := 0; round < c.Rounds; round++ {
 		metrics.Reset()
+		goerrors.ClearSuggestionCache() // the sequential phase primed it: make the concurrent calls compute again
 		var arrived, mismatches int32
 		var release int32
 		var first atomic.Value
@@ -416,7 +441,7 @@ var roundCheck *hx.Check[RoundCase]
 func init() { roundCheck = hx.NewCheck("concurrent_rounds", oracleRound) }
 
 func TestConcurrentRounds(t *testing.T) {
-	hx.Rule("concurrent_rounds", fmt.Sprintf("a case is a workload of 6-30 generated inputs of distinct sizes (model statements, corrupted, corpus, soup) and a plan: 2-64 goroutines x 1-12 steps, each step one of %d operations (tokenize x2, five parse entry points, recovery, three formatters, extract, two scanners, lint, keyword suggestion cache, metrics.GetStats, SetSpan/GetSpan on an own node, direct metrics.Record*) on one input; GOMAXPROCS in {1,2,4,16}; optional Gosched between steps; run in a child built with -race (GORACE=halt_on_error=1) for 3-12 rounds with metrics.Reset between them, goroutines released by a spin barrier; oracles: every result equals the sequential answer, no race report or fatal error ends the child, after quiescence TokenizeOperations/Errors/TotalBytes/ParseOperations/ASTPool counters/ErrorsByType/MinQuerySize/MaxQuerySize equal the sums/extremes of the per-step sequential deltas; non-trivial = >= 4 goroutines, >= 2 operation kinds, >= 2 input sizes; distinct = plan + inputs", len(ops)))
+	hx.Rule("concurrent_rounds", fmt.Sprintf("a case is a workload of 6-30 generated inputs of distinct sizes (model statements, corrupted, corpus, soup) and a plan: 2-64 goroutines x 1-12 steps, each step one of %d operations (tokenize x2, five parse entry points, recovery, three formatters, extract, two scanners, lint, keyword suggestion cache (cleared before every round, incl. misspelt words), a three-statement parse cancelled at poll 1-9, metrics.GetStats, SetSpan/GetSpan on an own node, direct metrics.Record*) on one input; GOMAXPROCS in {1,2,4,16}; optional Gosched between steps; run in a child built with -race (GORACE=halt_on_error=1) for 3-12 rounds with metrics.Reset between them, goroutines released by a spin barrier; oracles: every result equals the sequential answer, no race report or fatal error ends the child, after quiescence TokenizeOperations/Errors/TotalBytes/ParseOperations/ASTPool counters/ErrorsByType/MinQuerySize/MaxQuerySize equal the sums/extremes of the per-step sequential deltas; non-trivial = >= 4 goroutines, >= 2 operation kinds, >= 2 input sizes; distinct = plan + inputs", len(ops)))
 	if !raceEnabled && !hx.Leaf() {
 		hx.Note("race_detector", "binary built WITHOUT -race: data races are not observed in this run")
 	}
